@@ -117,11 +117,7 @@ def run(ctx):
 
 
 def corpus_lines(ctx):
-    import os
-    p = os.path.join(core.ROOT, "corpus", "C15.cases")
-    if not os.path.exists(p):
-        return []
-    return [l.strip() for l in open(p) if l.strip() and not l.startswith("#")]
+    return core.corpus("C15", ctx.tier)
 
 
 def evaluate(ctx, lines, impl, model, died_i, died_m):
